@@ -1,2 +1,109 @@
-/- C14 correspondence driver (stub: replaced when the property's model is built) -/
-def main : IO Unit := IO.println "stub"
+import PnVerif.Spec.ModeSpec
+/-
+  C14 correspondence driver: the same script lines that harness/c14_mode.c executes on the real
+  library are interpreted here by the model (`Mode.step`) and, independently, by the documented
+  automaton (`ModeSpec.specStep`, which keeps its own abstract state).
+
+    S <created|openrw|openro> <hasRec> <cfg>   -> st <state> | sm=<mode> sro= snew= sopen=
+    C <call> <args..>                            -> e=<code> <state> wr= del= val= | se=<code> sm= sro= snew= sopen= sdel=
+    P <call> <args..>   (state restored after)   -> same
+    E                                            -> ok
+    <state> = D=<hex> N=<hex> old= ab= g= p= b= rc=   or   closed
+-/
+open PnVerif.Mode PnVerif.ModeSpec
+
+def b01 (b : Bool) : String := if b then "1" else "0"
+
+def hex (n : Nat) : String := String.ofList (Nat.toDigits 16 n)
+
+def showState (s : State) : String :=
+  if !s.opened then "closed"
+  else s!"D={hex s.d.word} N={hex s.n.word} old={b01 s.old} ab={b01 s.abuf} g={s.nGet} p={s.nPut} b={s.nBput} rc={b01 s.recCommit}"
+
+def showMode : PnVerif.ModeSpec.Mode → String
+  | .define => "define" | .coll => "coll" | .indep => "indep"
+
+def showA (a : AState) : String :=
+  s!"sm={showMode a.mode} sro={b01 a.rdonly} snew={b01 a.isNew} sopen={b01 a.opened}"
+
+def pb (s : String) : Bool := s == "1"
+
+def pv (s : String) : VarArg :=
+  if s == "g" then .global else if s == "b" then .bad else if s == "f" then .fixed
+  else if s == "r" then .recv else .chr
+
+def parseCall : List String → Option Call
+  | ["enddef"] => some .enddef
+  | ["enddefargs", n] => some (.enddefArgs (pb n))
+  | ["redef"] => some .redef
+  | ["begin"] => some .beginIndep
+  | ["end"] => some .endIndep
+  | ["close"] => some .close
+  | ["abort"] => some .abort
+  | ["defdim", u] => some (.defDim (pb u))
+  | ["defvar", u, r] => some (.defVar (pb u) (pb r))
+  | ["defvarfill", v] => some (.defVarFill (pv v))
+  | ["setfill"] => some .setFill
+  | ["delatt", v, nb, ex] => some (.delAtt (pv v) (pb nb) (pb ex))
+  | ["putatt", v, nb, tb, cm, nl, ex, gr] => some (.putAtt (pv v) (pb nb) (pb tb) (pb cm) (pb nl) (pb ex) (pb gr))
+  | ["getatt", v, nb, ex] => some (.getAtt (pv v) (pb nb) (pb ex))
+  | ["copyatt", vi, vo, nb, se, de, gr] => some (.copyAtt (pb vi) (pb vo) (pb nb) (pb se) (pb de) (pb gr))
+  | ["renameatt", v, nb, ex, iu, lg] => some (.renameAtt (pv v) (pb nb) (pb ex) (pb iu) (pb lg))
+  | ["renamevar", v, nb, iu, lg] => some (.renameVar (pv v) (pb nb) (pb iu) (pb lg))
+  | ["renamedim", nb, db, iu, lg] => some (.renameDim (pb nb) (pb db) (pb iu) (pb lg))
+  | "rw" :: p :: c :: v :: t :: cb :: _ => some (.rw (pb p) (pb c) (pv v) (pb t) (pb cb))
+  | "post" :: k :: v :: t :: cb :: _ =>
+    let kind := if k == "iput" then PostKind.iput else if k == "iget" then PostKind.iget else PostKind.bput
+    some (.post kind (pv v) (pb t) (pb cb))
+  | ["wait", c, z] => some (.wait (pb c) (pb z))
+  | ["cancel", z] => some (.cancel (pb z))
+  | ["sync"] => some .sync
+  | ["syncnumrecs"] => some .syncNumrecs
+  | ["flush"] => some .flush
+  | ["fillvarrec", v] => some (.fillVarRec (pv v))
+  | ["attach", p] => some (.attach (pb p))
+  | ["detach"] => some .detach
+  | "inq" :: _ => some .inq
+  | ["inqvar", v] => some (.inqVar (pv v))
+  | ["inqnreqs"] => some .inqNreqs
+  | "inqbuf" :: _ => some .inqBuf
+  | _ => none
+
+structure DS where
+  cfg : Cfg := Cfg.pinned
+  s : State := closed
+  a : AState := aclosed
+
+def toks (line : String) : List String :=
+  (line.splitOn " ").filter (fun t => t != "")
+
+def handle (ds : DS) (line : String) : DS × String :=
+  match toks line.trimAscii.toString with
+  | ["S", kind, hr, cfg] =>
+    let r := pb hr
+    let s := if kind == "created" then created r else openedFile (kind == "openrw") r
+    let a := abs s     -- the documented initial state is the abstraction of the initial flags
+    ({ cfg := ⟨pb cfg⟩, s := s, a := a }, s!"st {showState s} | {showA a}")
+  | ["E"] => (ds, "ok")
+  | k :: rest =>
+    if k == "C" || k == "P" then
+      match parseCall rest with
+      | none => (ds, "bad-call")
+      | some c =>
+        let o := step ds.cfg ds.s c
+        let so := specStep ds.a c
+        let out := s!"e={o.err.code} {showState o.st} wr={b01 o.wr} del={b01 o.del} val={o.val} | se={so.err.code} {showA so.st} sdel={b01 so.del}"
+        if k == "C" then ({ ds with s := o.st, a := so.st }, out) else (ds, out)
+    else (ds, "bad-line")
+  | [] => (ds, "")
+
+partial def loop (h : IO.FS.Stream) (out : IO.FS.Stream) (ds : DS) : IO Unit := do
+  let line ← h.getLine
+  if line.isEmpty then return ()
+  let (ds', o) := handle ds line
+  out.putStrLn o
+  loop h out ds'
+
+def main : IO Unit := do
+  let out ← IO.getStdout
+  loop (← IO.getStdin) out {}
